@@ -609,4 +609,4 @@ def run(ctx):
             'from the source), CFG typestate rule on push_vars (no push '
             'before a reject), agreement of the range constants with '
             'Type.can_hold, and CFG rules on the retry loop. Does not decide '
-            'which texts are well-formed numbers.')
+            'which texts are well-formed numbers. Also: parse_input interpreted on the eight forms of the statement; the prompt text does not steer the emitted code.')
